@@ -298,6 +298,10 @@ fn walk_drop<'tcx>(
     if depth > 12 || seen.contains(&ty) {
         return;
     }
+    if !ty.needs_drop(tcx, te) {
+        // NonNull<CcBox<T>>, raw pointers, PhantomData, Copy data: dropping them runs no code
+        return;
+    }
     seen.push(ty);
     match ty.kind() {
         ty::Param(_) | ty::Dynamic(..) | ty::Alias(..) | ty::Placeholder(_) | ty::Bound(..) | ty::Infer(_) => {
